@@ -1,4 +1,5 @@
 import Q1t.Proofs.NoPanicExec
+import Q1t.Model.StabSim
 /-!
 C18, execution, generically in the representation: `BackendSafe B okErr allowed Inv n N` lists, for every
 operation of `trait QuState` that `do_execute_with` uses, that on a state satisfying `Inv` and operands
@@ -205,5 +206,51 @@ theorem execWF_opGood {c : Circ P} {shots : Nat} (h : ExecWF c shots = true)
   refine ⟨h.1.1, fun op hop => ⟨hin op hop, fun d hd => ?_⟩⟩
   have := h.2 op hop d hd
   simpa using this
+
+/-! ### what C03 owes for the stabilizer representation
+
+`BackendSafe (stabBackend half ph conjOf) (· = NotAStabilizer) ∅ (SInv TInv n N) n N` is the hypothesis of
+`exec_either_representation_partial` / `reps_same_constructor_partial`.  It is a statement about
+`StabilizerState` (lists of tableaux with ranges); the part of it that is about `StabilizerTableau` alone is
+`TabTotal` below, and the lift from `TabTotal` to `BackendSafe` is list bookkeeping of the same kind as
+`NoPanic.lean` does for the vector representation (ranges positive and summing to the shot count — `collect_total`
+applies verbatim —, one tableau per range, `tabs[icol]` in range).  That lift is NOT proved yet.
+
+`TabTotal` for `n ∈ {1, 2}`, `TInv t := ∃ v, (t, v) ∈ TableauFinite.statesOf n` and the gate set
+`Spec.StabEnum.gateOps n` follows from the kernel-checked exhaustive lemmas of C03 (`Proofs/TableauFinite.lean`):
+`gate` from `gates_exhaustive`, `measure` and `collapse` from `measure_exhaustive` (`MeasureAgrees`: `measure`
+returns, and for a random outcome both `collapse`s return a tableau of the enumeration), `reset` from
+`reset_exhaustive` (`ResetAgrees`), `init` from `start_mem`.  What is missing there for C18: (i) the gate set —
+`gateOps` lists the gates C03 enumerates, `ValidPlace` admits every library gate incl. `Swap`, `V`, `V†`, `CY`,
+the non-Clifford ones (for which `notAStabilizer` must be shown to be the ONLY failure) and `Kron`/`Composite`
+terms; (ii) all `n`: a general proof needs the invariant "`n` rows of `n` cells, `n` signs, rows independent"
+(`Tab.WF` + `Canonical`), under which `measure`'s `unwrapNoZ` site and every cell access are excluded. -/
+
+/-- the tableau-level obligations (C03) behind `BackendSafe` of the stabilizer representation -/
+structure TabTotal {P : Type} (ph : List Nat) (conjOf : GateTerm P → Tableau.Tab.Conj) (n : Nat)
+    (TInv : Tableau.Tab → Prop) : Prop where
+  init : TInv (Tableau.Tab.new n)
+  gate : ∀ (g : GateTerm P) bits t, TInv t → ValidPlace n g bits →
+    (∃ t', Tableau.Tab.applyGate ph (conjOf g) t bits = .ok t' ∧ TInv t') ∨
+      Tableau.Tab.applyGate ph (conjOf g) t bits = .err .notAStabilizer
+  measure : ∀ t q, TInv t → q < n → ∃ info, Tableau.Tab.measure t q = .ok info
+  collapse : ∀ t q i v, TInv t → Tableau.Tab.measure t q = .ok (.random i) →
+    ∃ t', Tableau.Tab.collapse ph t i q v = .ok t' ∧ TInv t'
+  reset : ∀ t q, TInv t → q < n → ∃ t', Tableau.Tab.reset ph t q = .ok t' ∧ TInv t'
+
+/-- the shape invariant of a `StabilizerState` over a tableau invariant -/
+structure SInv (TInv : Tableau.Tab → Prop) (n N : Nat) (s : StabState) : Prop where
+  nrBits : s.nrBits = n
+  nrShots : s.nrShots = N
+  sum : s.counts.sum = N
+  pos : ∀ c ∈ s.counts, 0 < c
+  len : s.tabs.length = s.counts.length
+  tabs : ∀ t ∈ s.tabs, TInv t
+
+/-- the open obligation, as a proposition: `TabTotal` lifts to `BackendSafe` of the stabilizer backend -/
+def StabLiftObligation {α P : Type} (half : α) (ph : List Nat) (conjOf : GateTerm P → Tableau.Tab.Conj) (n N : Nat)
+    (TInv : Tableau.Tab → Prop) : Prop :=
+  TabTotal ph conjOf n TInv → 0 < N →
+    BackendSafe (stabBackend half ph conjOf) (fun e => e = .notAStabilizer) (fun _ => False) (SInv TInv n N) n N
 
 end Q1t.Sim
